@@ -297,3 +297,69 @@ def same_value(got, want):
     if res["verdict"] == "differ":
         return "differ", {names.get(k, k): v for k, v in res.get("witness", {}).items()}
     return "unknown", res.get("reason")
+
+
+def int_eval(e, env):
+    """exact integer evaluation of a condition-bearing expression over Python ints (bit operations included); raises
+    ValueError on anything else"""
+    from fractions import Fraction
+    op = e.op
+    if op == "const":
+        v = e.value
+        if isinstance(v, bool):
+            return v
+        if isinstance(v, Fraction) and v.denominator == 1:
+            return int(v)
+        raise ValueError("constant %r" % (v,))
+    if op == "sym":
+        if e.args[0] in env:
+            return env[e.args[0]]
+        raise ValueError("symbol %s" % e.args[0])
+    if op == "add":
+        return sum(int_eval(a, env) for a in e.args)
+    if op == "mul":
+        out = 1
+        for a in e.args:
+            out *= int_eval(a, env)
+        return out
+    if op == "neg":
+        return -int_eval(e.args[0], env)
+    if op in ("floordiv", "mod"):
+        a, b = int_eval(e.args[0], env), int_eval(e.args[1], env)
+        if b == 0:
+            raise ValueError("division by zero")
+        return a // b if op == "floordiv" else a % b
+    if op == "cond":
+        return int_eval(e.args[1], env) if int_eval(e.args[0], env) else int_eval(e.args[2], env)
+    if op == "cmp":
+        a, b = int_eval(e.args[1], env), int_eval(e.args[2], env)
+        return {"==": a == b, "!=": a != b, "<": a < b, "<=": a <= b, ">": a > b, ">=": a >= b}[e.args[0]]
+    if op == "not":
+        return not int_eval(e.args[0], env)
+    if op == "bool":
+        return bool(int_eval(e.args[0], env))
+    if op == "and":
+        return all(int_eval(a, env) for a in e.args)
+    if op == "or":
+        return any(int_eval(a, env) for a in e.args)
+    if op in ("max", "min"):
+        vals = [int_eval(a, env) for a in e.args]
+        return max(vals) if op == "max" else min(vals)
+    if op == "call":
+        nm = e.args[0]
+        a = [int_eval(x, env) for x in e.args[1:]]
+        if nm == "bitand" and len(a) == 2:
+            return a[0] & a[1]
+        if nm == "bitor" and len(a) == 2:
+            return a[0] | a[1]
+        if nm == "bitxor" and len(a) == 2:
+            return a[0] ^ a[1]
+        if nm == "rshift" and len(a) == 2 and a[1] >= 0:
+            return a[0] >> a[1]
+        if nm == "lshift" and len(a) == 2 and 0 <= a[1] < 128:
+            return a[0] << a[1]
+        if nm == "invert" and len(a) == 1:
+            return ~a[0]
+        if nm in ("int", "abs") and len(a) == 1:
+            return int(a[0]) if nm == "int" else abs(a[0])
+    raise ValueError("operation %s" % (e.args[0] if op == "call" else op))
